@@ -1659,6 +1659,10 @@ class AbsPaths:
                 if v[0] == "const":
                     i += 1  # a constant reference (&'static str, &CONST): the pointee is the constant itself
                     continue
+                if v[0] == "cellref":
+                    v = st.get(v[1])
+                    i += 1
+                    continue
                 return None
             if isinstance(e, dict) and "d" in e:
                 if v[0] != "variant" or v[1] != e["d"]:
@@ -1677,6 +1681,16 @@ class AbsPaths:
 
     def _assign(self, st, s):
         p = s["p"]
+        if p["p"] == ["*"] and (st.get(p["l"]) or ("",))[0] == "cellref":
+            # a store through a reference handed out by a modelled accessor (`*request.version_mut() = v`)
+            r = s["r"]
+            v = self._eval_operand(st, r["o"]) if r["k"] in ("use", "cast") else None
+            key = st[p["l"]][1]
+            if v is None:
+                st.pop(key, None)
+            else:
+                st[key] = v
+            return
         if p["p"]:
             st.pop(p["l"], None)
             return
@@ -1717,6 +1731,13 @@ class AbsPaths:
                         val = ("refval", inner)
         elif k == "cast":
             val = self._eval_operand(st, r["o"])
+        elif k == "discr" and "vars" in r:
+            # `discriminant(place)` of a known variant (derived PartialEq compares these)
+            v = self._eval_place(st, r["p"])
+            if v is not None and v[0] == "variant":
+                idx = [i for i, name in r["vars"] if name == v[1]]
+                if len(idx) == 1:
+                    val = ("const", str(idx[0]))
         elif k == "unop" and r.get("op") == "Not":
             a = self._eval_operand(st, r["o"])
             if a is not None and a[0] == "const" and a[1] in ("true", "false"):
@@ -1754,6 +1775,23 @@ class AbsPaths:
                     return r     # a nondeterministic call: the alternative successor states (only `outcomes` follows them)
                 if r:
                     return
+        if n.endswith("intrinsics::discriminant_value") and site.args:
+            # derived PartialEq / Hash read the discriminant through this intrinsic: the index of a known variant
+            av = self._eval_operand(st, site.args[0])
+            hops = 0
+            while av is not None and av[0] in ("ref", "refmut", "refval") and hops < 6:
+                av = st.get(av[1]) if av[0] != "refval" else av[1]
+                hops += 1
+            ty = ((t.get("argtys") or [""])[0] or "").lstrip("&").replace("mut ", "").strip()
+            a = self.fn.facts.adts.get(norm(ty)) or self.fn.facts.adts.get(ty.split("<")[0])
+            d = t["dest"]
+            if av is not None and av[0] == "variant" and a is not None and not d["p"]:
+                idx = [i for i, vv in enumerate(a["variants"]) if vv["name"] == av[1]]
+                if len(idx) == 1:
+                    st[d["l"]] = ("const", str(idx[0]))
+                    return
+            st.pop(d["l"], None)
+            return
         matched_oracle = False
         for rx, ofn in self.oracles:
             if any(rx.search(c) for c in (site.nres, site.ndecl, site.res, site.decl) if c):
